@@ -1,19 +1,19 @@
-\* C41 quick: all (context, a, b, d) on a reduced tip domain
+\* C41 thorough: legacy density resolution, all (context, a, b) over ratio tips
 CONSTANT MaxBN = 1
 CONSTANT MaxVRF = 1
-CONSTANT MaxSlot = 2
-CONSTANT ForkSlots = {0}
-CONSTANT Windows = {0, 1}
+CONSTANT MaxSlot = 1
+CONSTANT ForkSlots = {0, 2}
+CONSTANT Windows = {0}
 CONSTANT DepthSet = "min"
 CONSTANT TrimShallow = TRUE
-CONSTANT Arity = 3
-CONSTANT SampleMod = 11
-CONSTANT TipKind = "slots"
-CONSTANT RBlocks = {}
-CONSTANT SpanBases = {}
-CONSTANT SpanMults = {}
-CONSTANT SpanOffsets = {}
-CONSTANT ResRoot = 1
+CONSTANT Arity = 2
+CONSTANT SampleMod = 1
+CONSTANT TipKind = "ratio"
+CONSTANT RBlocks = {1, 2, 3}
+CONSTANT SpanBases = {3, 1000, 1000000, 300000000}
+CONSTANT SpanMults = {1, 2}
+CONSTANT SpanOffsets = {-1, 0, 1, 200}
+CONSTANT ResRoot = 31623
 INIT Init
 NEXT Next
 INVARIANT Reflexive
@@ -24,12 +24,9 @@ INVARIANT LongerWins
 INVARIANT LowerVrfWins
 INVARIANT MissingVrfLoses
 INVARIANT EqualIffSameKey
-INVARIANT DeepDensityFirst
 INVARIANT DeepDenserWins
 INVARIANT DenserIsStrict
 INVARIANT DensityOrderIsDenser
 INVARIANT DeepTieIsPraos
 INVARIANT UnequalRatioDecides
 INVARIANT EqualRatioTies
-INVARIANT Transitive
-INVARIANT DensityTieTransitive
